@@ -358,3 +358,18 @@ package gortsplib
 //@   opt inline=0
 //@   assert[C02]@return calls(handleRequest) == 1 ==> sc.session == session
 //@   modifies *
+
+// C20, record side: every media of an announced description is given the control attribute
+// "trackID=<its index>", whatever control attribute it carried before (a description read from a
+// camera and re-published carries the camera's own controls): the SETUP URLs the client then builds
+// are exactly the ones findMediaByTrackID resolves back to the same index.
+//@ func prepareForAnnounce
+//@   opt inline=0
+//@   requires desc != nil
+//@   requires forall j, k :: 0 <= j && j < k && k < len(desc.Medias) ==> desc.Medias[j] != desc.Medias[k]
+//@   requires forall j :: 0 <= j && j < len(desc.Medias) ==> desc.Medias[j] != nil
+//@   ensures[C20] err == nil ==> forall j :: 0 <= j && j < len(desc.Medias) ==> desc.Medias[j].Control == "trackID=" + itoa(j, 10)
+//@   modifies *
+//@   loop 1
+//@     invariant 0 <= _i && _i <= len(desc.Medias)
+//@     invariant forall j :: 0 <= j && j < _i ==> desc.Medias[j].Control == "trackID=" + itoa(j, 10)
